@@ -320,6 +320,7 @@ def strip_coq_comments(txt):
 
 def coq_project():
     """(Re)generate _CoqProject and the Makefile from the directory listing."""
+    os.makedirs(os.path.join(COQ, "Extract", "out"), exist_ok=True)
     vs = []
     for root, dirs, files in os.walk(COQ):
         dirs.sort()
